@@ -11,6 +11,8 @@ import (
 	"testing"
 
 	"github.com/JunNishimura/Goit/verifharness/core/findings"
+	"github.com/JunNishimura/Goit/verifharness/core/gitfmt"
+	"github.com/JunNishimura/Goit/verifharness/core/sbx"
 	"github.com/JunNishimura/Goit/verifharness/core/stats"
 )
 
@@ -35,7 +37,11 @@ func faultCorpus() []corpusState {
 	afterReset := append(append([]Step{}, two...), goit("reset", "--hard", "HEAD@{2}"), wr("a.txt", "dirty\n"), Step{Op: "rmdir", Path: "dir"})
 	renamed := append(append([]Step{}, c2...), goit("branch", "-r", "trunk"), goit("branch", "old"))
 	emptied := append(append([]Step{}, c1...), goit("rm", "a.txt", "dir", "dir-x", "zz"))
+	ignoring := append(append(append([]Step{}, ident...), files...), wr(".goitignore", "*.log\nbuild/\n"), wr("dir/debug.log", "noise\n"), wr("build/out.o", "obj\n"), wr("top.log", "x\n"))
+	ignoringC1 := append(append([]Step{}, ignoring...), goit("add", "."), goit("commit", "-m", "first"), wr("a.txt", "changed\n"), wr("build/more.o", "obj2\n"))
 	return []corpusState{
+		{"ignore-file-fresh", ignoring, [][]string{{"add", "."}, {"add", "dir", "build"}, {"add", "dir/debug.log", "a.txt"}}},
+		{"ignore-file-one-commit", ignoringC1, [][]string{{"add", "."}, {"add", "a.txt", "build"}, {"reset", "--hard", "HEAD@{0}"}, {"restore", "a.txt"}}},
 		{"no-repository", nil, [][]string{{"init"}}},
 		{"fresh", []Step{goit("init")}, [][]string{{"config", "user.name", "A B"}, {"config", "--global", "user.email", "a@b.cc"}}},
 		{"configured-fresh", append(append([]Step{}, ident...), files...), [][]string{{"add", "a.txt"}, {"add", "a.txt", "dir", "dir-x"}, {"add", "."}, {"add", "dir", "zz"}, {"config", "user.name", "x=y"}}},
@@ -53,12 +59,24 @@ func faultCorpus() []corpusState {
 // readOnlyCorpus: read-only commands, enumerated for C16 in every state that has a repository with content.
 var readOnlyCorpus = [][]string{{"status"}, {"log"}, {"log", "-n", "2"}, {"reflog"}, {"ls-files", "-s"}, {"branch", "--list"}, {"rev-parse", "HEAD"}, {"cat-file", "-p", "@HEAD"}, {"write-tree"}}
 
+// refusedCorpus: commands that are refused fault-free (exit 1, nothing changes), enumerated for C16 in the state
+// "three-branches": a failed read or write must not turn a refusal into a half-done change.
+var refusedCorpus = [][]string{{"update-ref", "refs/heads/topic", "@blob:a.txt"}, {"update-ref", "refs/heads/topic", "@tree"}, {"update-ref", "refs/heads/nosuch", "@main"},
+	{"branch", "topic"}, {"branch", "-d", "feature"}, {"branch", "-d", "nosuch"}, {"branch", "-r", "main"}, {"switch", "nosuch"}, {"switch", "-c", "topic"},
+	{"reset", "--hard", "HEAD@{99}"}, {"rm", "nosuch"}, {"add", "nosuch"}, {"restore", "nosuch"}, {"commit", "-m", "nothing staged"}}
+
 // resolveArgs replaces "@<branch>" by the commit id that branch holds in the prepared state.
 func resolveArgs(o *Obs, cmd []string) []string {
 	out := append([]string{}, cmd...)
 	for i, a := range out {
 		if a == "@HEAD" {
 			out[i] = o.HeadCommit()
+		} else if strings.HasPrefix(a, "@blob:") {
+			out[i] = o.IdxMap[a[6:]]
+		} else if a == "@tree" {
+			if cm, err := gitfmt.ReadCommit(o.Store, o.HeadCommit()); err == nil {
+				out[i] = cm.Tree
+			}
 		} else if strings.HasPrefix(a, "@") {
 			out[i] = o.Branches[a[1:]]
 		}
@@ -156,8 +174,13 @@ func enumerate(t *testing.T, pid string) {
 			// reads are faultable too: the read-only commands must report a failed read, not print less
 			cmds = append(append([][]string{}, cmds...), readOnlyCorpus...)
 		}
+		nRO := len(cmds)
+		if pid == "C16" && st.Name == "three-branches" {
+			cmds = append(cmds, refusedCorpus...)
+		}
 		for ci, cmd0 := range cmds {
-			readOnly := ci >= len(st.Commands)
+			readOnly := ci >= len(st.Commands) && ci < nRO
+			refused := ci >= nRO
 			idx++
 			if idx%nsh != shard {
 				continue
@@ -171,7 +194,17 @@ func enumerate(t *testing.T, pid string) {
 				p.close()
 				continue // e.g. log before the first commit: nothing to enumerate
 			}
-			if p.ffRes.Exit != 0 {
+			if refused {
+				unchanged := len(sbx.Diff(p.pre.Goit, p.post.Goit, nil)) == 0 && len(sbx.DiffFiles(p.pre.Work, p.post.Work, nil)) == 0
+				if p.ffRes.Exit != 1 || !unchanged {
+					// not refused cleanly on this tree: other properties judge that, nothing to enumerate here
+					stats.Note(fmt.Sprintf("command %v is not refused fault-free (exit %d, unchanged=%v): not enumerated", cmd0, p.ffRes.Exit, unchanged))
+					p.close()
+					continue
+				}
+				stats.Label("refused-command")
+			}
+			if p.ffRes.Exit != 0 && !refused {
 				// the corpus is built so that every command succeeds fault-free on a tree where the basic
 				// commands work; if it does not, this check cannot say anything about that pair
 				stats.Note(fmt.Sprintf("corpus command %v in state %s does not succeed fault-free (exit %d): skipped", cmd0, st.Name, p.ffRes.Exit))
